@@ -179,6 +179,13 @@ class Gen:
             t2 = t1 if r.random() < 0.7 else r.choice("SU")
             return self.operand(t1, d - 1) + [op] + self.operand(t2, d - 1)
         op = r.choice(["&&", "||"])
+        if r.random() < 0.12:
+            # the VALUE of && / || is 0 or 1 whatever the operands are (seeded change C13-m3 returned the
+            # left operand of a short-circuited ||): compare it with a number, left operand not 0/1
+            big = r.choice(["2", "3", "0x10", "7"])
+            other = self.operand(r.choice("BS"), d - 1)
+            val = self.paren([big, op] + (self.paren(other) if len(other) > 1 else other))
+            return val + [r.choice(["==", "!=", "<", ">="]), r.choice(["1", "2", "0"])]
         a = self.operand(r.choice("BBS"), d - 1)
         b = self.operand(r.choice("BBS"), d - 1)
         if self.feat["guards"] and r.random() < 0.35:
